@@ -5,10 +5,10 @@ CONSTANTS
   Durs = {0, 1, 3}
   Horizon = 14
   MaxNotifs = 2
-  Lazy = FALSE
+  Lazy = TRUE
   DrainAfterIdle = FALSE
-  Resumed = FALSE
-  Age = 0
-  StartWaitIdle = FALSE
+  Resumed = TRUE
+  Age = 1
+  StartWaitIdle = TRUE
 INVARIANTS NotFaster NoLostWakeup Regular
 CHECK_DEADLOCK FALSE
